@@ -13,8 +13,16 @@
    class (LaspyException or another Exception) with which opening fails and which except clause sees it, and the
    failures that come AFTER a successful open: a point area that ends inside a record (read_points / read raise), EVLRs
    that cannot be decoded (open raises when they are loaded at opening, read() raises when they were left for it).
-   Not modelled: positions during write/append sessions (left unchanged), LAZ point sources, failures of the stream's own
-   methods, double close. *)
+   Failures of the stream's own methods (read/readinto/seek/tell/write/flush/truncate raising OSError or anything else,
+   a BaseException that is not an Exception included): while opening (outcome OFault: the constructor raises what the
+   stream raised, the except clauses of open_las run), under an operation on the handle (EOpFault: the operation
+   raises, the handle and the stream stay as they are - a reader has created its point source by then, every stream
+   operation of read_points / read / seek goes through it), inside laspy.read after its open succeeded
+   (EReadLasFault), and inside the close method itself (EEndFault: the j-th statement of the close method that may use
+   the stream raises; the close actions that run all the same are the generated gen_close_*_faults: those before the
+   statement and the `finally` blocks around it).
+   Not modelled: positions during write/append sessions and after a failure of the stream (left unchanged), LAZ point
+   sources, double close. *)
 From Coq Require Import ZArith List Bool.
 From LasV Require Import Lib.Base Gen.GenCursor Gen.GenOwnership.
 Import ListNotations.
@@ -22,7 +30,8 @@ Open Scope Z_scope.
 Open Scope bool_scope.
 
 (* what the content handed to open turns out to be (mode w: what the header given to the writer turns out to be) *)
-Inductive outcome := OOk | OEmpty | OBadSig | OTruncated | OBadVlr | OIncompat.
+Inductive outcome := OOk | OEmpty | OBadSig | OTruncated | OBadVlr | OIncompat
+                   | OFault (x : exn).   (* an operation of the stream itself raises x while the constructor runs *)
 
 (* the facts about a well-formed file that positions depend on *)
 (* f_size is the size of the whole stream (what precedes the LAS content included), f_evlr_start the absolute position
@@ -56,7 +65,8 @@ Record handle := mkH { h_mode : omode; h_closefd : bool (* self.closefd *); h_de
                        h_ps : psrc; h_file : finfo; h_read : Z; h_pending_evlrs : bool }.
 
 (* one entry per moment laspy lets go of the stream *)
-Inductive how := HFailedOpen | HPrecondition | HExit | HClose | HBodyRaised | HLasDataWrite.
+Inductive how := HFailedOpen | HPrecondition | HExit | HClose | HBodyRaised | HLasDataWrite
+               | HCloseFault.   (* the with statement was left / close() was called and the close method itself raised *)
 Record obs := mkO { o_how : how; o_closefd : bool; o_was_open : bool; o_closed : bool }.
 
 Record st := mkSt { st_s : stream; st_h : option handle; st_log : list obs }.
@@ -71,7 +81,11 @@ Inductive event :=
 | EExit | EClose
 | ELasDataWrite (o : outcome)                                              (* LasData.write(stream) *)
 | EReadLas (closefd : bool) (f : finfo) (o : outcome)                      (* laspy.read(stream, closefd=) *)
-| ERewind (p : Z).                                                         (* the caller's own stream.seek(p) *)
+| ERewind (p : Z)                                                          (* the caller's own stream.seek(p) *)
+| EOpFault (x : exn)                    (* an operation on the handle raises x: an operation of the stream failed under it *)
+| EEndFault (via_exit : bool) (j : nat) (x : exn)   (* the with statement is left (whether its body raised or not) / close() is
+                                           called, and the j-th statement of the close method that may use the stream raises x *)
+| EReadLasFault (closefd : bool) (f : finfo) (x : exn).   (* laspy.read: the open succeeds, an operation of the stream fails under read() *)
 
 (* the exception constructing the reader / writer / appender raises, by class *)
 Definition fail_exn (m : omode) (o : outcome) : option exn :=
@@ -80,6 +94,7 @@ Definition fail_exn (m : omode) (o : outcome) : option exn :=
   | OBadVlr => Some XOther             (* UnicodeDecodeError / struct.error / ValueError: not a LaspyException *)
   | OIncompat => Some XLaspy
   | OEmpty | OBadSig | OTruncated => match m with MW => None (* the destination is not read *) | _ => Some XLaspy end
+  | OFault x => Some x                 (* every constructor uses the stream: header read (r, a), header written (w) *)
   end.
 
 (* ---------------- closing ---------------- *)
@@ -111,7 +126,11 @@ Definition close_handle (h : handle) (s : stream) : stream :=
 
 (* ---------------- exceptions through the except clauses of open_las ---------------- *)
 Definition catches (c : catch_class) (x : exn) : bool :=
-  match c, x with CatchLaspy, XOther => false | _, _ => true end.
+  match c, x with
+  | CatchLaspy, XLaspy => true | CatchLaspy, _ => false
+  | CatchException, XBase => false
+  | _, _ => true
+  end.
 
 Fixpoint handle_exn (hs : list (catch_class * list cact)) (x : exn) (s : stream) : stream :=
   match hs with
@@ -284,6 +303,22 @@ Definition end_handle (hw : how) (via_exit : bool) (t : st) (h : handle) : st :=
   let s' := if via_exit && negb (gen_exit_closes (h_mode h)) then s else close_handle h s in
   mkSt s' None (add_obs t s' hw (h_declared h)).
 
+(* the close method itself raises at its j-th fault point: the close actions that run all the same *)
+Definition close_faults (m : omode) : bool -> bool -> bool -> list fault_point :=
+  match m with MR => gen_close_reader_faults | MW => gen_close_writer_faults | MA => gen_close_appender_faults end.
+
+Definition end_handle_fault (via_exit : bool) (j : nat) (t : st) (h : handle) : option st :=
+  if via_exit && negb (gen_exit_closes (h_mode h)) then None
+  else match nth_error (close_faults (h_mode h) (h_closefd h) (has_ps (h_ps h)) true) j with
+       | Some (Some acts) =>
+           let s' := fold_left (top_act (h_ps h)) acts (st_s t) in
+           Some (mkSt s' None (add_obs t s' HCloseFault (h_declared h)))
+       | _ => None          (* no such statement (a reader's close uses the stream only to close it) *)
+       end.
+
+(* an operation on the handle fails because the stream did: a reader reaches its stream through the point source *)
+Definition op_fault (h : handle) : handle := if is_r (h_mode h) then set_ps h (ensure_ps h) else h.
+
 Definition f_none : finfo := mkF 0 0 0 0 0 0 0 0 false.
 
 Definition do_lasdata_write (o : outcome) (t : st) : st * res :=
@@ -334,6 +369,19 @@ Definition step (t : st) (e : event) : st * res :=
   | ERewind p =>
       let s := st_s t in
       if s_closed s || negb (s_seekable s) then (t, RRaised XOther) else (mkSt (set_pos s p) (st_h t) (st_log t), RDone)
+  | EOpFault x => on_handle t (fun h => (upd t (op_fault h) (st_s t), RRaised x))
+  | EEndFault via j x =>
+      on_handle t (fun h => match end_handle_fault via j t h with Some t' => (t', RRaised x) | None => (t, RIgnored) end)
+  | EReadLasFault cf f x =>
+      match st_h t with
+      | Some _ => (t, RIgnored)
+      | None =>
+          let '(t1, r1) := do_open cf MR (gen_read_las_closefd cf) true f OOk t in
+          match st_h t1 with
+          | None => (t1, r1)
+          | Some h => (end_handle HBodyRaised true (upd t1 (op_fault h) (st_s t1)) (op_fault h), RRaised x)
+          end
+      end
   end.
 
 Definition run (t : st) (evs : list event) : st := fold_left (fun a e => fst (step a e)) evs t.
@@ -351,12 +399,39 @@ Definition init (c : seekcap) : st := init_at c 0.
 (* ---------------- the property's reading of the log ---------------- *)
 (* the stream was open when laspy got it, laspy has let go of it: it is closed iff the caller said closefd.
    HPrecondition (mode w refuses a non-seekable destination by an assertion placed before the try) is the one exit the
-   property's list of failures (invalid content, unusable header) does not cover; it is stated separately. *)
+   property's list of failures (invalid content, unusable header) does not cover; it is stated separately.
+   HCloseFault - the close method itself raised because the stream failed under it - is judged by obs_ok in one direction
+   only (a stream laspy was told to leave open is left open); the other direction (a stream laspy owns is closed even
+   when its close method fails half-way) is obs_ok_full, which holds when the generated fault points of the close
+   methods all still run the close action (close_faults_safeb). *)
+Definition is_close_fault (hw : how) : bool := match hw with HCloseFault => true | _ => false end.
+
 Definition obs_ok (o : obs) : Prop :=
+  o_how o <> HPrecondition -> o_was_open o = true ->
+  if is_close_fault (o_how o) then (o_closed o = true -> o_closefd o = true) else o_closed o = o_closefd o.
+
+Definition obs_ok_full (o : obs) : Prop :=
   o_how o <> HPrecondition -> o_was_open o = true -> o_closed o = o_closefd o.
 
 Definition obs_okb (o : obs) : bool :=
-  match o_how o with HPrecondition => true | _ => negb (o_was_open o) || Bool.eqb (o_closed o) (o_closefd o) end.
+  match o_how o with
+  | HPrecondition => true
+  | HCloseFault => negb (o_was_open o) || negb (o_closed o) || o_closefd o
+  | _ => negb (o_was_open o) || Bool.eqb (o_closed o) (o_closefd o)
+  end.
+
+(* what a list of close actions does to an open stream, the point source being p *)
+Definition acts_close (p : psrc) (acts : list cact) : bool := s_closed (fold_left (top_act p) acts (mkS false 0 CapYes)).
+
+Definition fault_point_safe (cf : bool) (p : psrc) (e : fault_point) : bool :=
+  match e with None => true | Some acts => Bool.eqb (acts_close p acts) cf end.
+
+(* every fault point of every close method still closes the stream iff closefd (point sources as the reader creates them) *)
+Definition close_faults_safeb : bool :=
+  forallb (fun m => forallb (fun cf => forallb (fun p => forallb (fault_point_safe cf p) (close_faults m cf (has_ps p) true))
+                                               [PNone; PReal true; PNull true]) [true; false]) [MR; MW; MA].
 
 Definition is_end (e : event) : bool :=
   match e with EExit | EClose | EBodyRaises _ => true | _ => false end.
+
+Definition is_close_fault_event (e : event) : bool := match e with EEndFault _ _ _ => true | _ => false end.
